@@ -170,8 +170,8 @@ theorem batch_truncation_trees (k : Kind F) (name : String) (round : Nat) (hk : 
   exact (T.batch_iff (MgrSpec.base F) _ hpt _).2 (Gen.rowMajor_take T.law stream out hp h1 n)
 
 /-- **C02 at full strength** (every shipped kind, timeframes, gap filling).  NOT proved yet; see
-`C01_FULL` for what is missing (the composite kinds not in `CoveredTree`, indicator-on-indicator
-inputs). -/
+`C01_FULL` for what is missing (MACD, STOCH, HMA, TSI, ADX; indicator-on-indicator inputs); the
+covered trees are in `C02_trees`. -/
 def C02_FULL (F : Type) [PyF F] : Prop :=
   ∀ (k : Kind F) (name : String) (round : Nat) (tf : Option Int) (fill : Bool)
     (init : List (Candle F)) (chunks₁ chunks₂ : List (List (Candle F))) (snap₁ snap₂ : List (Candle F)),
